@@ -59,6 +59,11 @@ pub enum Req {
     /// with_channel: validate holder commitment 1 carrying one outgoing HTLC of PAY_SAT for the approved
     /// hash and revoke commitment 0 (the revocation re-validates and applies the payment)
     PayHv(usize),
+    /// handler level, protocol version 4 (before RevokeCommitmentTx existed): one ValidateCommitmentTx2
+    /// request validates holder commitment 1 (content variant 0 or 1) AND revokes commitment 0
+    HVal(usize, u8),
+    /// a holder commitment validation that the policy refuses (absurd fee): refusals are routine
+    Refused(usize),
     /// with_channel_base: read a per-commitment point
     Point(usize),
     Forget(usize),
@@ -86,7 +91,7 @@ impl Req {
     /// request kind in the generated lock table
     pub fn kind(&self) -> &'static str {
         match self {
-            Req::Validate(_) | Req::SignHolder(_) | Req::SignCp(_) | Req::PayCp(_) | Req::PayCp1(_) | Req::PayHv(_) => "channel_request",
+            Req::Validate(_) | Req::SignHolder(_) | Req::SignCp(_) | Req::PayCp(_) | Req::PayCp1(_) | Req::PayHv(_) | Req::HVal(_, _) | Req::Refused(_) => "channel_request",
             Req::Point(_) => "channel_base_request",
             Req::Forget(_) | Req::ForgetDb(_) => "forget_channel",
             Req::Balance => "channel_balance",
@@ -111,6 +116,8 @@ impl Req {
             Req::PayCp(c) => format!("req {} paycp {}", tid, c),
             Req::PayCp1(c) => format!("req {} paycp1 {}", tid, c),
             Req::PayHv(c) => format!("req {} payhv {}", tid, c),
+            Req::HVal(c, v) => format!("req {} hval{} {}", tid, v, c),
+            Req::Refused(c) => format!("req {} refused {}", tid, c),
             Req::Point(c) => format!("req {} point {}", tid, c),
             Req::Forget(c) => format!("req {} forget {}", tid, c),
             Req::Balance => format!("req {} balance", tid),
@@ -138,6 +145,9 @@ impl Req {
             "paycp" => Req::PayCp(arg()? as usize),
             "paycp1" => Req::PayCp1(arg()? as usize),
             "payhv" => Req::PayHv(arg()? as usize),
+            "hval0" => Req::HVal(arg()? as usize, 0),
+            "hval1" => Req::HVal(arg()? as usize, 1),
+            "refused" => Req::Refused(arg()? as usize),
             "point" => Req::Point(arg()? as usize),
             "forget" => Req::Forget(arg()? as usize),
             "balance" => Req::Balance,
@@ -303,6 +313,10 @@ struct World {
     chans: Vec<TestChannelContext>,
     /// prepared commitment 1 with counterparty signatures, per channel
     commits: Vec<Option<(TestCommitmentTxContext, Signature, Vec<Signature>)>>,
+    /// a second, different content for commitment 1 (other balance split), per channel
+    commits_b: Vec<Option<(TestCommitmentTxContext, Signature, Vec<Signature>)>>,
+    /// real ChannelHandlers negotiated at protocol version 4, per channel
+    handlers: Vec<Option<vls_protocol_signer::handler::ChannelHandler>>,
     /// prepared commitment 1 with one outgoing HTLC for the approved payment hash, per channel
     pay_commits: Vec<Option<(TestCommitmentTxContext, Signature, Vec<Signature>)>>,
     onchain: (bitcoin::Transaction, TestFundingTxContext),
@@ -579,13 +593,40 @@ fn chan_ctx_by_dbid(node_ctx: &TestNodeContext, dbid: u64) -> TestChannelContext
     TestChannelContext { channel_id, setup, counterparty_keys }
 }
 
+/// a real `ChannelHandler` for (PEER, dbid) on the node, negotiated at protocol `version`
+fn channel_handler(node: &Arc<Node>, dbid: u64, version: u32) -> Option<vls_protocol_signer::handler::ChannelHandler> {
+    use vls_protocol::msgs::{self, Message};
+    use vls_protocol_signer::handler::{Handler, InitHandler, RootHandler};
+    let mut init = InitHandler::new(0, node.clone(), Arc::new(vls_protocol_signer::approver::PositiveApprover()), version);
+    let m = msgs::HsmdInit {
+        key_version: vls_protocol::model::Bip32KeyVersion { pubkey_version: 0, privkey_version: 0 },
+        chain_params: lightning_signer::bitcoin::BlockHash::all_zeros(),
+        encryption_key: None,
+        dev_privkey: None,
+        dev_bip32_seed: None,
+        dev_channel_secrets: None,
+        dev_channel_secrets_shaseed: None,
+        hsm_wire_min_version: 2,
+        hsm_wire_max_version: version,
+    };
+    let (done, _) = init.handle(Message::HsmdInit(m)).ok()?;
+    if !done {
+        return None;
+    }
+    let root: RootHandler = init.into();
+    Some(root.for_new_client(1, vls_protocol::model::PubKey(PEER), dbid))
+}
+
 fn build_world(sc: &Scenario) -> World {
     let (node_ctx, store, clock) = make_node_ctx();
     let mut chans = Vec::new();
     let mut commits = Vec::new();
     let mut pay_commits = Vec::new();
     let needs = |f: &dyn Fn(&Req) -> bool| sc.threads.iter().flatten().any(|q| f(q));
-    let need_plain = needs(&|q| matches!(q, Req::Validate(_)));
+    let need_plain = needs(&|q| matches!(q, Req::Validate(_) | Req::HVal(_, _) | Req::Refused(_)));
+    let need_handler = needs(&|q| matches!(q, Req::HVal(_, _)));
+    let mut commits_b = Vec::new();
+    let mut handlers = Vec::new();
     let need_pay = needs(&|q| matches!(q, Req::PayHv(_)));
     for i in 0..sc.nchan {
         let nn = i + 1;
@@ -620,6 +661,24 @@ fn build_world(sc: &Scenario) -> World {
             commits.push(Some((c1, s1, h1)));
         } else {
             commits.push(None);
+        }
+        if need_handler {
+            let mut c1 = channel_commitment(
+                &node_ctx,
+                &cc,
+                1,
+                0,
+                CHANNEL_VALUE - 1000 - 25_000 * (nn as u64),
+                25_000 * (nn as u64),
+                vec![],
+                vec![],
+            );
+            let (s1, h1) = counterparty_sign_holder_commitment(&node_ctx, &cc, &mut c1);
+            commits_b.push(Some((c1, s1, h1)));
+            handlers.push(channel_handler(&node_ctx.node, nn as u64, 4));
+        } else {
+            commits_b.push(None);
+            handlers.push(None);
         }
         // commitment 1 with one offered (outgoing) HTLC of PAY_SAT for PAY_HASH
         if need_pay {
@@ -662,7 +721,7 @@ fn build_world(sc: &Scenario) -> World {
     tx_ctx.add_wallet_output(&node_ctx, SpendType::P2wpkh, 2, 999_000);
     let tx = tx_ctx.to_tx();
     let invoices = (0..3u8).map(|x| make_current_test_invoice(x, 10_000 + x as u64)).collect();
-    World { clock, invoices, store, node_ctx, chans, commits, pay_commits, onchain: (tx, tx_ctx), stub, blocks: std::sync::Mutex::new(Vec::new()), coinbase_ctr }
+    World { clock, invoices, store, node_ctx, chans, commits, commits_b, handlers, pay_commits, onchain: (tx, tx_ctx), stub, blocks: std::sync::Mutex::new(Vec::new()), coinbase_ctr }
 }
 
 fn status_str<T>(r: &Result<T, lightning_signer::util::status::Status>) -> String {
@@ -721,6 +780,42 @@ fn do_req(w: &World, r: &Req) -> String {
                 match r {
                     Ok((n, s)) => format!("ok {} {}", n, &hex::encode(s.serialize_compact())[..8]),
                     Err(e) => format!("err:{:?}:{}", e.code(), e.message()),
+                }
+            }
+        },
+        Req::HVal(c, v) => match (w.chans.get(*c), w.handlers.get(*c).and_then(|h| h.as_ref())) {
+            (Some(_), Some(h)) => {
+                use vls_protocol::model::{BitcoinSignature, Signature as WireSig};
+                use vls_protocol::msgs::{self, Message};
+                use vls_protocol_signer::handler::Handler;
+                let (c1, s1, _) = if *v == 0 { w.commits[*c].as_ref() } else { w.commits_b[*c].as_ref() }.expect("prepared commitment");
+                let m = msgs::ValidateCommitmentTx2 {
+                    commitment_number: 1,
+                    feerate: c1.feerate_per_kw,
+                    to_local_value_sat: c1.to_broadcaster,
+                    to_remote_value_sat: c1.to_countersignatory,
+                    htlcs: Vec::new().into(),
+                    signature: BitcoinSignature { signature: WireSig(s1.serialize_compact()), sighash: 1 },
+                    htlc_signatures: Vec::new().into(),
+                };
+                match h.handle(Message::ValidateCommitmentTx2(m)) {
+                    Ok(reply) => format!("ok {}", &hex::encode(reply.as_vec())[..40.min(reply.as_vec().len() * 2)]),
+                    Err(e) => format!("err:{:?}", e).chars().take(140).collect(),
+                }
+            }
+            _ => "nochan".into(),
+        },
+        Req::Refused(c) => match w.chans.get(*c) {
+            None => "nochan".into(),
+            Some(cc) => {
+                let (_, s1, _) = w.commits[*c].as_ref().expect("prepared commitment");
+                // half of the channel value would be left as fee: refused by the policy
+                let r = node.with_channel(&cc.channel_id, |chan| {
+                    chan.validate_holder_commitment_tx_phase2(1, 0, CHANNEL_VALUE / 2, 0, vec![], vec![], s1, &[])
+                });
+                match r {
+                    Ok(_) => "ok".into(),
+                    Err(e) => format!("err:{:?}:{}", e.code(), e.message().chars().take(90).collect::<String>()),
                 }
             }
         },
@@ -1900,7 +1995,7 @@ fn gen_scenario(rng: &mut Rng) -> Scenario {
         let mut v = Vec::new();
         for _ in 0..len {
             let c = rng.below(nchan as u64) as usize;
-            let r = match rng.below(38) {
+            let r = match rng.below(40) {
                 0..=3 => Req::Validate(c),
                 4 => Req::SignCp(c),
                 5 => Req::SignHolder(c),
@@ -1924,7 +2019,9 @@ fn gen_scenario(rng: &mut Rng) -> Scenario {
                 29 => Req::RmBlock,
                 30..=32 => Req::PayCp(c),
                 33 => Req::PayCp1(c),
-                _ => Req::PayHv(c),
+                34..=35 => Req::PayHv(c),
+                36..=37 => Req::HVal(c, rng.below(2) as u8),
+                _ => Req::Refused(c),
             };
             v.push(r);
         }
@@ -2021,6 +2118,18 @@ impl Group for C20 {
             p(2, false, Req::PayHv(0), Req::PayHv(1)),
             p(2, false, Req::PayCp1(0), Req::PayCp1(1)),
             p(2, false, Req::PayCp(0), Req::PayHv(1)),
+            // one handler request = validation + revocation of one channel (protocol version 4)
+            p(1, false, Req::HVal(0, 0), Req::HVal(0, 1)),
+            p(1, false, Req::HVal(0, 0), Req::HVal(0, 0)),
+            p(1, false, Req::HVal(0, 0), Req::SignHolder(0)),
+            p(1, false, Req::HVal(0, 1), Req::Validate(0)),
+            p(1, false, Req::HVal(0, 0), Req::Heartbeat),
+            // refused validations against the tracker users
+            p(1, false, Req::Refused(0), Req::Heartbeat),
+            p(1, true, Req::Refused(0), Req::SetupChan),
+            p(1, false, Req::Refused(0), Req::SignOnchain),
+            p(1, false, Req::Refused(0), Req::Validate(0)),
+            p(1, false, Req::Refused(0), Req::AddBlock(0)),
             // same channel read-modify-write
             p(1, false, Req::Validate(0), Req::SignCp(0)),
             p(1, false, Req::Validate(0), Req::SignHolder(0)),
